@@ -162,8 +162,9 @@ func registerIntrinsics(e *Engine) {
 	// ---- internal/bytealg, strings, bytes ----
 	indexByte := func(th *Thread, e []Value, c *Term) Value {
 		if hasWide(e) {
-			// tokens: a JSON token never contains a raw control byte; other bytes unknown
-			th.st.abort("IndexByte over opaque token")
+			// tokens: a JSON token never contains a raw control byte, a decimal
+			// token only digits and '-'; other bytes unknown (abort inside)
+			return mkInt(64, int64(th.elemIndexByte(e, c)))
 		}
 		for i, x := range e {
 			if th.st.branch(mkEq(x.(*Term), c), "indexbyte") {
